@@ -323,3 +323,28 @@ class Cfg(object):
                 longest[x] = None if bestv is None else bestv + w(x)
             mx = longest.get(start)
         return (best, mx)
+
+
+def per_iteration_counts(cfg, header, loop_blocks, pred, limit=4096):
+    """(min, max) number of pred-blocks on any path that starts at the loop header,
+    stays inside the loop and returns to the header (one continuing iteration).
+    None if no such path.  Inner cycles make max INF."""
+    results = []
+    inner_cycle = [False]
+
+    def dfs(x, cnt, seen):
+        if len(results) > limit:
+            return
+        for s in cfg.succ[x]:
+            if s == header:
+                results.append(cnt)
+            elif s in loop_blocks:
+                if s in seen:
+                    inner_cycle[0] = True
+                    continue
+                dfs(s, cnt + (1 if pred(s) else 0), seen | {s})
+
+    dfs(header, 1 if pred(header) else 0, {header})
+    if not results:
+        return None
+    return (min(results), INF if inner_cycle[0] else max(results))
